@@ -341,11 +341,16 @@ impl<F: Float> GaussianMixtureModel<F> {
         observations: &ArrayBase<D, Ix2>,
     ) -> (Array1<F>, Array2<F>) {
         let weighted_log_prob = self.estimate_weighted_log_prob(observations);
-        let log_prob_norm = weighted_log_prob
-            .mapv(|x| x.exp())
-            .sum_axis(Axis(1))
-            .mapv(|x| x.ln());
-        let log_resp = weighted_log_prob - log_prob_norm.to_owned().insert_axis(Axis(1));
+        // Log-sum-exp with the row maximum factored out. Far from every component all
+        // `exp(weighted_log_prob)` underflow to zero and `ln(0)` made the responsibilities infinite;
+        // subtracting the maximum first also keeps the rows normalised when the log probabilities are huge.
+        let row_max = weighted_log_prob.map_axis(Axis(1), |row| {
+            row.iter().copied().fold(F::neg_infinity(), F::max)
+        });
+        let shifted = weighted_log_prob - row_max.to_owned().insert_axis(Axis(1));
+        let log_sum = shifted.mapv(|x| x.exp()).sum_axis(Axis(1)).mapv(|x| x.ln());
+        let log_resp = shifted - log_sum.to_owned().insert_axis(Axis(1));
+        let log_prob_norm = row_max + log_sum;
         (log_prob_norm, log_resp)
     }
 
